@@ -172,6 +172,28 @@ func init() {
 			fr.i.symClock = args[0].(bool)
 			return nil
 		},
+		"verifInFreshProcess": func(fr *frame, args []value) value {
+			// a new node process: the repository's package-level state is forgotten (initialisers run
+			// again lazily, reading a fresh symbolic clock), then the process function runs
+			i := fr.i
+			name := argString(args[0])
+			for g := range i.globals {
+				if g.Pkg != nil && strings.HasPrefix(g.Pkg.Pkg.Path(), "mods.irisnet.org/") {
+					delete(i.globals, g)
+				}
+			}
+			for fn := range i.initFnDone {
+				if fn.Pkg != nil && strings.HasPrefix(fn.Pkg.Pkg.Path(), "mods.irisnet.org/") {
+					delete(i.initFnDone, fn)
+				}
+			}
+			pf := fr.fn.Pkg.Func("verifProc_" + name)
+			if pf == nil {
+				panic(unsupported("verifInFreshProcess: no function verifProc_" + name))
+			}
+			return call(i, fr, token.NoPos, pf, nil)
+		},
+		"verifChildProcess": func(fr *frame, args []value) value { return false },
 		"verifTries":   func(fr *frame, args []value) value { return 1 },
 		"verifSleepMs": func(fr *frame, args []value) value { return nil },
 		"verifTier":    func(fr *frame, args []value) value { return fr.i.run.opts.Tier },
